@@ -99,6 +99,7 @@ int main(int argc, char** argv) {
     Parser parser; g_parser = &parser; g_python = std::make_shared<Python>();
     { auto bd = parser.parseString(schedgen::base_deck() + "END\n"); g_es = std::make_unique<EclipseState>(bd); }
     auto deep = schedgen::deep_alphabet();
+    deep.push_back({"DATES_same", "", true});      // a DATES record repeating the date already reached (C03 only; appended so that recorded replays keep their indices)
     auto broad = schedgen::broad_alphabet();
     const int deep_depth = run.thorough() ? 5 : 4;
     run.rule = "deep: all histories over " + std::to_string(deep.size()) + " colliding SCHEDULE events (same well/group) up to depth " + std::to_string(deep_depth) + " with <=3 time advances, pruned where the library rejects the input; broad: prelude(3 wells, 3 groups) T a T b " + (run.thorough() ? "T c (all ordered triples over the stateful subset)" : "(all ordered pairs)") + " and a b T (same step), plus every dependent snippet d (valid only after an enabling one e): prelude T e T d, T e d, T e T x T d for every x, over " + std::to_string(broad.size()) + " snippets covering every SCHEDULE handler keyword; oracle per single-event extension: closed report steps unchanged by canon() and by obs::sched_state(); distinct = distinct canon of the newest state";
